@@ -10,7 +10,7 @@ from py2lean import Refuse, write_if_changed, sha
 def generate(repo, leandir=None):
     import importlib, gen_specs
     importlib.reload(gen_specs)
-    leandir = leandir or os.path.join(os.path.dirname(HERE), 'lean')
+    leandir = leandir or os.environ.get('VERIF_LEAN') or os.path.join(os.path.dirname(HERE), 'lean')
     report = {}
     for mod in gen_specs.MODULES:
         src = os.path.join(repo, mod['src'])
